@@ -198,6 +198,9 @@ func FactsAt(b *ssa.BasicBlock) []Fact {
 	return expandPhiFacts(factsAt(b), 0, true)
 }
 
+// ExpandFacts adds what follows from the given facts when a condition is a short-circuit φ.
+func ExpandFacts(fs []Fact) []Fact { return expandPhiFacts(fs, 0, true) }
+
 // expandPhiFacts: go/ssa evaluates `a && b` used as a value (e.g. the case of a
 // tagless switch) into a φ of (false, b): when such a φ is known true, b is true
 // and everything known where b was evaluated holds as well (dually for ||).
